@@ -76,6 +76,11 @@ def tasks(tier, seed, selftest=False):
     for pre in ((), ("succ",), ("bfs",)):
         S.append(dict(family="U2", skeleton=pre + ("fmin", "everyseeds"), timebox=30 if q else 900))
         S.append(dict(family="D3", skeleton=pre + ("fmin", "everyseeds"), timebox=20 if q else 900))
+    # modular networks with a motif-avoidant core (solver-constrained) next to sources / switches: this is where
+    # skip nodes overlap around a motif-avoidant attractor
+    for fam, box in (("P:MAA3+SRC1", 40), ("P:MAA3+SW2", 40), ("P:MAA3+SW2+SW2", 60)):
+        for sk in (("succ", "skiprem", "everyseeds"), ("succ", "skipall", "everyseeds")):
+            S.append(dict(family=fam, skeleton=sk, timebox=box if q else 900))
     S.append(dict(family="U2", skeleton=("skiprem", "everyseeds"), timebox=60))
     S.append(dict(family="D3", skeleton=("skiprem", "everyseeds"), timebox=20 if q else 900))
     if not q:
@@ -90,6 +95,6 @@ def main(tier, seed, t0, selftest=False):
     results = common.run_tasks(tasks(tier, seed, selftest))
     return common.finish(PROP, tier, seed, "model_checking", results, t0, selftest=selftest, functions=FUNCTIONS,
                          bounds={"history": "limited strategy (symbolic limits/start/target) + skip_remaining | skip_to_minimal on every stub, or [prefix] + expand_minimal_spaces(skip_ignored symbolic); then seeds on every node",
-                                 "families": "U2, D3 time-boxed (quick); + U3 cubes, B22, CH4 (thorough)",
+                                 "families": "U2, D3, P:MAA3+SRC1, P:MAA3+SW2, P:MAA3+SW2+SW2 (4-7 variables, motif-avoidant core x source/switches) time-boxed (quick); + U3 cubes, B22, CH4 (thorough)",
                                  "motif-avoidant": "SymNet predicate: some attractor state lies in no minimal trap space"},
                          assumptions=["contract stubs of DESIGN.md §8 validated on every representative"])
